@@ -19,11 +19,14 @@ fn prio() -> BoxedStrategy<Prio> {
 }
 
 fn note_ops(pool: Vec<u8>) -> BoxedStrategy<MidiOp> {
+    let pool2 = pool.clone();
     prop_oneof![
         8 => (note_from(pool.clone()), 1u8..=127, any::<bool>()).prop_map(|(n, v, rs)| MidiOp::Chan { kind: 1, own: true, other: 0, d1: n, d2: v, rs }),
         5 => (note_from(pool.clone()), 0u8..=127, any::<bool>()).prop_map(|(n, v, rs)| MidiOp::Chan { kind: 0, own: true, other: 0, d1: n, d2: v, rs }),
         3 => (note_from(pool), any::<bool>()).prop_map(|(n, rs)| MidiOp::Chan { kind: 1, own: true, other: 0, d1: n, d2: 0, rs }),
         1 => (prop_oneof![9 => Just(0u8), 1 => 1u8..=127], any::<bool>()).prop_map(|(v, rs)| MidiOp::Chan { kind: 3, own: true, other: 0, d1: 123, d2: v, rs }),
+        // note-on / note-off with system real-time bytes inside the message
+        1 => (note_from(pool2), 0u8..=127, 0u8..2, any::<u8>(), 1u8..4).prop_map(|(n, v, k, rt, at)| MidiOp::ChanRt { kind: k, own: true, other: 0, d1: n, d2: v, rt, at }),
     ]
     .boxed()
 }
@@ -50,6 +53,8 @@ fn foreign_ops() -> BoxedStrategy<MidiOp> {
         // unsupported types on the listened channel: poly pressure, program change, channel pressure
         2 => (proptest::sample::select(vec![2u8, 4, 5]), 0u8..=127, 0u8..=127, any::<bool>()).prop_map(|(k, a, b, rs)| MidiOp::Chan { kind: k, own: true, other: 0, d1: a, d2: b, rs }),
         2 => (0u8..8).prop_map(MidiOp::RealTime),
+        // a message for another channel with system real-time bytes inside it
+        1 => (0u8..7, 0u8..15, 0u8..=127, 0u8..=127, any::<u8>(), 1u8..4).prop_map(|(k, o, a, b, rt, at)| MidiOp::ChanRt { kind: k, own: false, other: o, d1: a, d2: b, rt, at }),
     ]
     .boxed()
 }
@@ -166,8 +171,12 @@ fn with_foreign_echo(c: MidiCase, pattern: u64, mode: u8) -> MidiCase {
     for (i, op) in c.ops.into_iter().enumerate() {
         let echo = pattern >> (i % 64) & 1 == 1;
         if let (true, MidiOp::Chan { kind, own: true, d1, d2, .. }) = (echo, &op) {
-            let copy = MidiOp::Chan { kind: *kind, own: false, other: (pattern >> 8) as u8 % 15, d1: *d1, d2: *d2, rs: false };
-            if mode == 1 {
+            let copy = if mode >= 3 {
+                MidiOp::ChanRt { kind: *kind, own: false, other: (pattern >> 8) as u8 % 15, d1: *d1, d2: *d2, rt: (pattern >> 16) as u8, at: 1 + (pattern >> 24) as u8 % 3 }
+            } else {
+                MidiOp::Chan { kind: *kind, own: false, other: (pattern >> 8) as u8 % 15, d1: *d1, d2: *d2, rs: false }
+            };
+            if mode % 2 == 1 {
                 ops.push(copy);
                 ops.push(op);
             } else {
@@ -183,7 +192,7 @@ fn with_foreign_echo(c: MidiCase, pattern: u64, mode: u8) -> MidiCase {
 
 fn midi_case_plain(w: [u32; 6], max_ops: usize) -> BoxedStrategy<MidiCase> {
     midi_case_base(w, max_ops)
-        .prop_flat_map(|c| (Just(c), any::<u64>(), prop_oneof![5 => Just(0u8), 1 => Just(1u8), 1 => Just(2u8)]))
+        .prop_flat_map(|c| (Just(c), any::<u64>(), prop_oneof![10 => Just(0u8), 2 => Just(1u8), 2 => Just(2u8), 1 => Just(3u8), 1 => Just(4u8)]))
         .prop_map(|(c, pattern, mode)| with_foreign_echo(c, pattern, mode))
         .boxed()
 }
@@ -313,7 +322,7 @@ const MODEL_NOTE: &str = "reference = independent MIDI 1.0 byte decoder + receiv
 
 pub fn c04(quick: bool, seed: u64) -> Outcome {
     let mut o = Outcome::new(
-        "proptest histories of 1..200 ops: note-on (v>=1), note-off, note-on velocity 0, All-Notes-Off, priority / retrigger switches, foreign-channel and unsupported messages, real-time bytes; notes 70% from a per-case pool of 1-6 numbers (collisions, duplicates, stray releases), 30% uniform; all 16 channels (and channel arguments > 15); running status used at random where legal. After every complete message gate(), note_num(), velocity() are compared with the reference model. non-trivial = history with a release out of press order, or a duplicate note-on, or a note-off for a note not held, or All-Notes-Off with >= 2 held, AND a priority other than Last in force at some point; distinct by hash",
+        "proptest histories of 1..200 ops: note-on (v>=1), note-off, note-on velocity 0, All-Notes-Off, priority / retrigger switches, foreign-channel and unsupported messages, real-time bytes between messages and inside them (after the status byte, between the data bytes - own note messages and foreign messages alike); notes 70% from a per-case pool of 1-6 numbers (collisions, duplicates, stray releases), 30% uniform; all 16 channels (and channel arguments > 15); running status used at random where legal. After every complete message gate(), note_num(), velocity() are compared with the reference model. non-trivial = history with a release out of press order, or a duplicate note-on, or a note-off for a note not held, or All-Notes-Off with >= 2 held, AND a priority other than Last in force at some point; distinct by hash",
     );
     o.assumptions.push(MODEL_NOTE.into());
     let cases = if quick { 200_000 } else { 2_000_000 };
